@@ -9,6 +9,7 @@ import (
 	"os"
 	"os/exec"
 	"path/filepath"
+	"runtime/debug"
 	"sort"
 	"strings"
 	"sync"
@@ -148,6 +149,8 @@ func fatal(code int, format string, args ...any) {
 }
 
 func main() {
+	debug.SetGCPercent(1000)
+	debug.SetMemoryLimit(40 << 30)
 	if len(os.Args) < 2 {
 		fatal(2, "usage: symgo run|replay ...")
 	}
